@@ -6,7 +6,7 @@ state (MCNumCodec), checks DFA = pattern and print/read round trips on the
 reference, and exports the strings; each is given to 4 readers x 2 types of
 the real code.  A seeded driver adds write->read->write round trips over
 int64 x exponents 0..18 and over-long digit strings.  NumCodecTrace judges."""
-import json, re
+import json, os, re
 from . import core
 
 
@@ -59,7 +59,10 @@ def describe(ev, verdict):
 
 
 def validate(ctx, trace, shards):
-    res = ctx.validate_trace("NumCodecTrace", trace, shards=shards)
+    pats = ctx.path("patterns.json")
+    if not os.path.exists(pats):
+        ctx.run([ctx.vdrive(), "codec-patterns", "-repo", core.REPO, "-out", pats])
+    res = ctx.validate_trace("NumCodecTrace", trace, shards=shards, env={"PATTERNS": pats})
     tot = {"events": 0, "members": 0, "near": 0}
     for sp, chunk, r, _ in res:
         for k in tot:
